@@ -2,10 +2,11 @@
 
 Real devices on the virtual loop (real telegram queue and task registry, fake
 interface confirming at once, `time.time()` of binary_sensor shimmed to the
-virtual clock).  Generated on/off telegram histories with random gaps; the state
-and the counter are probed right after every telegram and at reset-eps, reset,
-reset+eps (resp. window-eps, window, window+eps) and compared with a reference
-timer / counter model.
+virtual clock).  Generated on/off telegram histories (GroupValueWrite and
+GroupValueResponse mixes, value-unchanged repeats, own commands looped back) with
+random gaps; the state and the counter are probed right after every telegram and
+at reset-eps, reset, reset+eps (resp. window-eps, window, window+eps) and compared
+with a reference timer / counter model that is advanced telegram by telegram.
 """
 
 from __future__ import annotations
@@ -17,18 +18,24 @@ from vlib.dev_harness import DevHarness
 LEVEL = "exploration"
 TECHNIQUE = "runtime monitor: reference timer/counter model compared with device state probed on the virtual clock"
 LEVEL_TEXT = (
-    "Generated telegram histories (quick 420, thorough 16 x 560; 3..14 telegrams each) for Switch(reset_after), BinarySensor(reset_after) and "
-    "BinarySensor(context_timeout) over invert / state-address / ignore_internal_state / always_callback options, gaps drawn around the configured "
-    "times (fractions, just below, just above, far beyond). Exploration: histories are sampled."
+    "Generated telegram histories (quick 520, thorough 16 x 600; 3..14 telegrams each) for Switch(reset_after), BinarySensor(reset_after) and "
+    "BinarySensor(context_timeout) over invert / state-address / ignore_internal_state / always_callback options, telegram kinds (write, response, "
+    "own command, state address), value-unchanged repeats, gaps drawn around the configured times (fractions, just below, just above, far beyond). "
+    "Exploration: histories are sampled."
 )
 LEVEL_NOTE = (
     "Trusted: virtual loop, clock shim, fake interface (confirms at once, so a Switch's own off telegram is looped back in the same instant). "
     "Telegram times lie on a 2^-6 s grid, probes at +-2^-10 s, so a probe never coincides with a telegram; a telegram is never placed exactly on a "
-    "reset / window expiry (that instant's order is not specified by the statement). Judged: state right after every telegram; state on at reset-2^-10 "
-    "(when no off telegram intervened), off at reset and reset+2^-10 measured from the LAST on telegram; counter == number of same-state GroupValueWrite "
-    "telegrams in the current chain (consecutive gaps < timeout, per state, as documented by the suite's test_counter) after every telegram and at "
-    "window-2^-10, and 0 at window / window+2^-10. Recorded only: device callbacks, GroupValueResponse telegrams, the combination "
-    "reset_after + context_timeout (a timed reset is not a telegram but is counted by the code)."
+    "reset / window expiry (that instant's order is not specified by the statement). Judged, for GroupValueWrite AND GroupValueResponse telegrams: "
+    "state right after every telegram; still on at reset-2^-10 and off at reset / reset+2^-10 measured from the LAST 'on' telegram of either kind "
+    "(every 'on' that finds the device on restarts the timer). One case follows the observation instead of being judged: a GroupValueResponse 'on' "
+    "that reaches a BinarySensor (always_callback=False) which is off only because of a timed reset - RemoteValue sees an unchanged value, the code "
+    "leaves the sensor off, the statement does not say it must turn on; if it does turn on, the timer rule applies from there. Counter == number of "
+    "same-state GroupValueWrite telegrams in the current chain (consecutive gaps < timeout, per state, as the suite's test_counter documents) after "
+    "every telegram and at window-2^-10, and 0 at window / window+2^-10. For GroupValueResponse the documentation says 'ignored' for counting while the "
+    "statement counts telegrams: each response must be EITHER counted like a write OR ignored completely (state, counters, window untouched); the "
+    "model adopts whichever the device did; anything else is a violation. Recorded only: device callbacks and the combination reset_after + "
+    "context_timeout (a timed reset is not a telegram but is counted by the code)."
 )
 SHARDS = {"quick": 1, "thorough": 16}
 TIMEOUT = {"quick": 120, "thorough": 1500}
@@ -39,7 +46,7 @@ GA, GA_STATE = "3/0/1", "3/0/2"
 
 
 def gen(rng: random.Random, index: int) -> dict:
-    kind = rng.choice(("switch", "switch", "bs_reset", "bs_reset", "bs_counter", "bs_counter", "bs_combo"))
+    kind = rng.choice(("switch", "switch", "bs_reset", "bs_reset", "bs_reset", "bs_counter", "bs_counter", "bs_combo"))
     base = rng.choice((0.25, 0.5, 1.0, 1.0, 2.0, 3.0, 0.125, 5.0))
     spec: dict = {"index": index, "kind": kind, "invert": rng.random() < 0.35}
     if kind == "switch":
@@ -48,9 +55,10 @@ def gen(rng: random.Random, index: int) -> dict:
     elif kind == "bs_reset":
         spec["reset_after"] = base
         spec["ignore_internal_state"] = rng.random() < 0.4
-        spec["always_callback"] = rng.random() < 0.3
+        spec["always_callback"] = rng.random() < 0.35
     elif kind == "bs_counter":
         spec["context_timeout"] = base
+        spec["always_callback"] = rng.random() < 0.3
     else:
         spec["context_timeout"] = base
         spec["reset_after"] = rng.choice((0.25, 0.5, 1.0, 2.0))
@@ -58,8 +66,8 @@ def gen(rng: random.Random, index: int) -> dict:
     events = []
     expiries: set = set()
     t = 0.0
-    same_state_bias = rng.random()
-    with_responses = kind in ("bs_reset", "bs_counter") and rng.random() < 0.1
+    same_state_bias = rng.choice((rng.random(), rng.random(), 0.9, 1.0))
+    response_rate = rng.choice((0.0, 0.0, 0.2, 0.4, 0.6))
     last = True
     for _ in range(n):
         c = rng.random()
@@ -87,18 +95,74 @@ def gen(rng: random.Random, index: int) -> dict:
             on = rng.random() < 0.6
         last = on
         how = "write"
-        if kind == "switch" and rng.random() < 0.3:
-            how = "command"
-        elif kind == "switch" and spec["state_address"] and rng.random() < 0.4:
-            how = "write_state"
-        elif with_responses and rng.random() < 0.3:
+        k = rng.random()
+        if k < response_rate:
             how = "response"
+        elif kind == "switch" and k < response_rate + 0.25:
+            how = "command"
+        if kind == "switch" and how in ("write", "response") and spec["state_address"] and rng.random() < 0.4:
+            how += "_state"
         events.append({"t": t, "on": on, "how": how})
         for key in ("reset_after", "context_timeout"):
             if spec.get(key) is not None:
                 expiries.add(t + spec[key])
     spec["events"] = events
     return spec
+
+
+class Model:
+    """Reference timer / counter, advanced telegram by telegram."""
+
+    def __init__(self, r: float | None, c: float | None) -> None:
+        self.r, self.c = r, c
+        self.st: bool | None = None  # state set by the last effective telegram
+        self.deadline: float | None = None  # reset expiry of the last effective 'on'
+        self.rv: bool | None = None  # value of the last telegram of any kind (what RemoteValue holds)
+        self.cnt = {True: 0, False: 0}
+        self.last_t: float | None = None
+        self.window_end: float | None = None
+        self.on_chain = 0  # number of 'on' telegrams that found the device on since it last turned on (for mechanism names)
+        self.last_on_kind = ""
+
+    def state(self, t: float) -> bool | None:
+        if self.st is None:
+            return None
+        if self.st and self.deadline is not None and t >= self.deadline:
+            return False
+        return self.st
+
+    def counter(self, t: float) -> int:
+        if self.window_end is None or t >= self.window_end or self.st is None:
+            return 0
+        return self.cnt[self.st]
+
+    def telegram(self, t: float, on: bool, kind: str) -> None:
+        """An effective telegram (state + timer)."""
+        was_on = bool(self.state(t))
+        self.st = on
+        if on:
+            self.on_chain = self.on_chain + 1 if was_on else 0
+            self.last_on_kind = kind
+            self.deadline = None if self.r is None else t + self.r
+        else:
+            self.deadline = None
+            self.on_chain = 0
+
+    def counted(self, t: float, on: bool) -> dict:
+        """Counters after counting a telegram of state `on` at t (pure)."""
+        if self.last_t is not None and t - self.last_t < self.c:
+            cnt = dict(self.cnt)
+            cnt[on] += 1
+        else:
+            cnt = {True: 0, False: 0}
+            cnt[on] = 1
+        return cnt
+
+    def count(self, t: float, on: bool) -> None:
+        self.cnt = self.counted(t, on)
+        self.last_t = t
+        self.window_end = t + self.c
+        self.st = on
 
 
 def run_case(ctx, spec: dict) -> str | None:
@@ -110,12 +174,14 @@ def run_case(ctx, spec: dict) -> str | None:
     c = spec.get("context_timeout")
     inv = spec["invert"]
     events = spec["events"]
-    has_response = any(e["how"] == "response" for e in events)
-    judged = kind != "bs_combo" and not has_response
+    always_cb = spec.get("always_callback", False)
+    judged = kind != "bs_combo"
+    name = "Switch" if kind == "switch" else "BinarySensor"
     found: list[str] = []
     trace: list = []
     callbacks: list = []
     h = DevHarness()
+    model = Model(r if kind != "bs_combo" else r, c)
 
     def viol(mech: str, msg: str, extra: dict | None = None) -> None:
         w = {"spec": spec, "trace": trace[-14:], "callbacks": callbacks[-8:]}
@@ -124,45 +190,8 @@ def run_case(ctx, spec: dict) -> str | None:
         ctx.violation(mech, w, msg)
         found.append(mech)
 
-    # ---- reference model ----------------------------------------------------
-    times = [e["t"] for e in events]
-
-    def model_state(t: float) -> bool | None:
-        """State at offset t (after everything due at t happened)."""
-        last = None
-        for e in events:
-            if e["t"] <= t:
-                last = e
-        if last is None:
-            return None
-        if not last["on"]:
-            return False
-        if r is not None and t >= last["t"] + r:
-            return False
-        return True
-
-    def model_counter(t: float) -> int | None:
-        if c is None:
-            return None
-        cnt = {True: 0, False: 0}
-        last_t = None
-        last_s = None
-        for e in events:
-            if e["t"] > t:
-                break
-            if last_t is not None and e["t"] - last_t < c:
-                cnt[e["on"]] += 1
-            else:
-                cnt = {True: 0, False: 0}
-                cnt[e["on"]] = 1
-            last_t, last_s = e["t"], e["on"]
-        if last_t is None:
-            return 0
-        if t >= last_t + c:
-            return 0
-        return cnt[last_s]
-
     # ---- timeline --------------------------------------------------------------
+    times = {e["t"] for e in events}
     points: list[tuple[float, int, str, dict | None]] = []
     for e in events:
         points.append((e["t"], 0, "event", e))
@@ -173,16 +202,6 @@ def run_case(ctx, spec: dict) -> str | None:
             for d, tag in ((c - E, "window-eps"), (c, "window"), (c + E, "window+eps")):
                 points.append((e["t"] + d, 1, tag, e))
     points.sort(key=lambda p: (p[0], p[1]))
-    special = set()  # instants where a timer expiry and a telegram coincide: not judged
-    expiries = set()
-    for e in events:
-        if r is not None and e["on"]:
-            expiries.add(e["t"] + r)
-        if c is not None:
-            expiries.add(e["t"] + c)
-    for t in times:
-        if t in expiries:
-            special.add(t)
 
     async def scenario() -> None:
         await h.start()
@@ -198,7 +217,7 @@ def run_case(ctx, spec: dict) -> str | None:
         else:
             dev = BinarySensor(h.xknx, "bs", group_address_state=GA, invert=inv, reset_after=r, context_timeout=c,
                                ignore_internal_state=spec.get("ignore_internal_state", False),
-                               always_callback=spec.get("always_callback", False), sync_state=False, device_updated_cb=cb)
+                               always_callback=always_cb, sync_state=False, device_updated_cb=cb)
         h.xknx.devices.async_add(dev)
 
         def probe(t: float, tag: str) -> bool:
@@ -208,43 +227,35 @@ def run_case(ctx, spec: dict) -> str | None:
             trace.append((tag, t, st, cnt))
             if not judged:
                 ctx.count("probe_recorded_only")
-                exp = model_state(t)
-                if kind == "bs_combo":
-                    if c is not None and cnt != model_counter(t):
-                        ctx.count("combo_counter_differs_from_telegram_count")
-                elif exp is not None and bool(st) != exp:
-                    ctx.count("response_history_state_differs_from_write_model")
+                if c is not None and cnt != model.counter(t):
+                    ctx.count("combo_counter_differs_from_telegram_count")
                 return True
-            if t in special:
-                ctx.count("probe_skipped_expiry_coincides_with_telegram")
-                return True
-            exp = model_state(t)
-            if kind != "bs_counter" and exp is not None:
-                ctx.count("probe_state")
-                if bool(st) != exp or st is None:
-                    name = "Switch" if kind == "switch" else "BinarySensor"
-                    if r is not None and exp is False and any(e["on"] and e["t"] + r <= t for e in events):
-                        late = [e for e in events if e["on"] and e["t"] <= t]
-                        restarted = len([e for e in late if e["t"] > late[-1]["t"] - r]) > 1 if late else False
-                        mech = f"{name}-still-on-after-reset-time" + ("-repeated-on" if restarted else "")
-                    elif exp is True:
-                        ons = [e for e in events if e["on"] and e["t"] <= t]
-                        repeated = len(ons) > 1 and ons[-1]["t"] - ons[-2]["t"] < r and all(
-                            not (not e["on"] and ons[-2]["t"] < e["t"] < ons[-1]["t"]) for e in events)
-                        mech = f"{name}-off-before-reset-time" + ("-timer-not-restarted-by-later-on" if repeated else "")
-                    else:
-                        mech = f"{name}-state-differs-from-last-telegram"
-                    viol(mech, f"{tag} at +{t}: state {st!r}, reference {exp}", {"at": t, "tag": tag})
-                    return False
+            if kind != "bs_counter":
+                exp = model.state(t)
+                if exp is not None:
+                    ctx.count("probe_state")
+                    if bool(st) != exp or st is None:
+                        if exp:
+                            mech = f"{name}-off-before-reset-time"
+                            if model.on_chain > 0:
+                                mech += "-timer-not-restarted-by-later-on" + ("-response" if model.last_on_kind.startswith("response") else "")
+                            elif tag == "after-telegram":
+                                mech = f"{name}-on-telegram-leaves-device-off" + ("-response" if model.last_on_kind.startswith("response") else "")
+                        elif model.st and model.deadline is not None and t >= model.deadline:
+                            mech = f"{name}-still-on-after-reset-time" + ("-repeated-on" if model.on_chain > 0 else "")
+                        else:
+                            mech = f"{name}-state-differs-from-last-telegram"
+                        viol(mech, f"{tag} at +{t}: state {st!r}, reference {exp}", {"at": t, "tag": tag})
+                        return False
             if c is not None:
                 ctx.count("probe_counter")
-                expc = model_counter(t)
-                if expc is not None and expc > 1:
+                expc = model.counter(t)
+                if expc > 1:
                     ctx.count("probe_counter_above_one")
                 if cnt != expc:
                     if expc == 0:
                         mech = "BinarySensor-counter-not-cleared-after-context-window"
-                    elif cnt is not None and expc is not None and cnt < expc:
+                    elif cnt is not None and cnt < expc:
                         mech = "BinarySensor-counter-below-telegrams-in-chain"
                     else:
                         mech = "BinarySensor-counter-above-telegrams-in-chain"
@@ -254,32 +265,76 @@ def run_case(ctx, spec: dict) -> str | None:
 
         for t, _o, tag, e in points:
             await h.sleep_until(t0 + t)
-            if tag == "event":
-                payload = DPTBinary(int(e["on"]) ^ int(inv))
-                ctx.count("telegram_" + ("on" if e["on"] else "off"))
-                ctx.count("how_" + e["how"])
-                if e["how"] == "write":
-                    h.incoming_write(GA, payload)
-                elif e["how"] == "write_state":
-                    h.incoming_write(GA_STATE, payload)
-                elif e["how"] == "response":
-                    h.incoming_response(GA, payload)
-                else:
-                    if e["on"]:
-                        await dev.set_on()
-                    else:
-                        await dev.set_off()
-                trace.append(("tx" if e["how"] == "command" else "rx", t, e["on"], e["how"]))
-                await h.settle()
-                if not probe(t, "after-telegram"):
-                    return
-            else:
+            if tag != "event":
                 if t in times:
-                    continue  # probed by the telegram at that instant (special)
+                    continue  # probed by the telegram at that instant
                 await h.settle()
                 ctx.count("probe_" + tag)
                 if not probe(t, tag):
                     return
+                continue
+            on, how = e["on"], e["how"]
+            payload = DPTBinary(int(on) ^ int(inv))
+            ctx.count("telegram_" + ("on" if on else "off"))
+            ctx.count("how_" + how)
+            is_response = how.startswith("response")
+            if how == "write":
+                h.incoming_write(GA, payload)
+            elif how == "write_state":
+                h.incoming_write(GA_STATE, payload)
+            elif how == "response":
+                h.incoming_response(GA, payload)
+            elif how == "response_state":
+                h.incoming_response(GA_STATE, payload)
+            elif on:
+                await dev.set_on()
+            else:
+                await dev.set_off()
+            trace.append(("tx" if how == "command" else "rx", t, on, how))
+            await h.settle()
+            # ---- advance the reference model ------------------------------------
+            if kind == "bs_counter" or kind == "bs_combo":
+                if not is_response:
+                    model.count(t, on)
+                else:
+                    # counted like a write, or ignored completely: adopt what the device did
+                    obs = (dev.state, dev.counter)
+                    exp_a = (on, model.counted(t, on)[on])
+                    exp_b = (model.st, model.counter(t))
+                    if obs == exp_a and obs != exp_b:
+                        ctx.count("response_counted_like_a_write")
+                        model.count(t, on)
+                    elif obs == exp_b:
+                        ctx.count("response_ignored_for_counting")
+                    elif judged:
+                        ctx.ev()
+                        viol("BinarySensor-response-neither-counted-nor-ignored",
+                             f"response {'on' if on else 'off'} at +{t}: (state, counter) = {obs}; counted would be {exp_a}, ignored {exp_b}", {"at": t})
+                        return
+                if kind == "bs_combo":
+                    model.telegram(t, on, how)
+                    model.rv = on
+            else:
+                ambiguous = (kind == "bs_reset" and is_response and on and not always_cb and model.rv is True
+                             and model.state(t) is False)
+                if ambiguous:
+                    # off only because of a timed reset; RemoteValue sees an unchanged value
+                    if dev.state:
+                        ctx.count("response_on_after_timed_reset_turned_sensor_on")
+                        model.telegram(t, True, how)
+                    else:
+                        ctx.count("response_on_after_timed_reset_left_sensor_off")
+                else:
+                    if is_response:
+                        ctx.count("response_judged")
+                        if on and model.state(t):
+                            ctx.count("response_on_while_on_must_restart_timer")
+                    elif on and model.state(t):
+                        ctx.count("write_on_while_on_must_restart_timer")
+                    model.telegram(t, on, how)
+                model.rv = on
+            if not probe(t, "after-telegram"):
+                return
         # sanitizer diagnostics: the statement says nothing about exceptions, so these are recorded, never judged
         for ex in h.swallowed_exceptions():
             ctx.count(f"diagnostic_swallowed_{ex['exc_type']}")
@@ -303,13 +358,15 @@ def run_case(ctx, spec: dict) -> str | None:
 
 def run(ctx):
     ctx.rule = (
-        "history = 3..14 on/off telegrams (incoming writes; for Switch also own set_on/set_off looped back and writes on the state address; "
-        "GroupValueResponse telegrams only in 10% of the BinarySensor histories, recorded only) with gaps from {2^-6, 1/4, 1/2, 1-2^-6, 1+2^-6, 2+2^-6, random} x the configured reset / context time; "
-        "distinct = (device kind, on/off+source string, gap ratios)."
+        "history = 3..14 on/off telegrams: incoming GroupValueWrite and GroupValueResponse (response share 0 / 20 / 40 / 60 % per history), for Switch "
+        "also own set_on/set_off looped back and telegrams on the state address; same-state repeats with probability up to 1; gaps from {2^-6, 1/4, "
+        "1/2, 1-2^-6, 1+2^-6, 2+2^-6, random} x the configured reset / context time; distinct = (device kind, on/off+source string, gap ratios)."
     )
     ctx.require("probe_state", "probe_counter", "probe_counter_above_one", "probe_reset-eps", "probe_reset", "probe_reset+eps",
-                "probe_window-eps", "probe_window", "telegram_on", "telegram_off", "how_command", "how_write")
-    n = ctx.scale(420, 560 * 16)
+                "probe_window-eps", "probe_window", "telegram_on", "telegram_off", "how_command", "how_write", "how_response",
+                "response_judged", "response_on_while_on_must_restart_timer", "write_on_while_on_must_restart_timer",
+                "response_ignored_for_counting", "response_counted_like_a_write")
+    n = ctx.scale(520, 600 * 16)
     for i in range(n):
         if not ctx.mine(i):
             continue
